@@ -652,8 +652,21 @@ impl C20 {
 								pr.iter().filter(|x| !s.contains(x)).count() + s.iter().filter(|x| !pr.contains(x)).count()
 							})
 							.unwrap();
-						let extra: Vec<&String> = pr.iter().filter(|x| !best.1.contains(x)).collect();
-						let missing: Vec<&String> = best.1.iter().filter(|x| !pr.contains(x)).collect();
+						// multiset difference (equal lines may occur several times)
+						let msub = |a: &Vec<String>, b: &Vec<String>| -> Vec<String> {
+							let mut rest = b.clone();
+							let mut out = vec![];
+							for x in a {
+								if let Some(i) = rest.iter().position(|y| y == x) {
+									rest.remove(i);
+								} else {
+									out.push(x.clone());
+								}
+							}
+							out
+						};
+						let extra: Vec<String> = msub(&pr, &best.1);
+						let missing: Vec<String> = msub(&best.1, &pr);
 						let kind = extra
 							.iter()
 							.chain(missing.iter())
